@@ -296,6 +296,8 @@ void QXmppTransferJob::accept(const QString &filePath)
         }
 
         d->iodevice = file;
+        // the file was opened here, so it is closed (and thereby flushed) here too, before finished() is emitted
+        d->deviceIsOwn = true;
         setLocalFileUrl(QUrl::fromLocalFile(filePath));
         setState(QXmppTransferJob::StartState);
     }
@@ -466,6 +468,14 @@ QXmppTransferIncomingJob::QXmppTransferIncomingJob(const QString &jid, QXmppClie
 
 void QXmppTransferIncomingJob::checkData()
 {
+    // QFile buffers up to 16 kB: write errors (disk full, ...) only show up when the buffer is flushed
+    if (auto *file = qobject_cast<QFileDevice *>(d->iodevice)) {
+        if (!file->flush()) {
+            terminate(QXmppTransferJob::FileAccessError);
+            return;
+        }
+    }
+
     if ((d->fileInfo.size() && d->done != d->fileInfo.size()) ||
         (!d->fileInfo.hash().isEmpty() && d->hash.result() != d->fileInfo.hash())) {
         terminate(QXmppTransferJob::FileCorruptError);
